@@ -98,7 +98,7 @@ def reference_single(p, c, tag=''):
     else:
         from TidalPy.rheology.complex_compliance import known_models
         mu, cplctl = p['shear_modulus'], False
-        comp = LEAF['compliance_dict_helper'](uf, known_models[rheo], (p['shear_modulus'] ** (-1), p['viscosity']), tuple())
+        comp = LEAF['compliance_dict_helper'](uf, known_models[rheo], (p['shear_modulus'] ** (-1), p['viscosity']), tuple(p['cc_inputs']) if p.get('cc_inputs') is not None else tuple())
     res = cm(p['target_gravity'], p['target_radius'], p['target_density'], mu, p.get('tidal_scale', 1.), p['host_mass'], sus, comp, terms, max_order_l=c['max_tidal_order_l'], cpl_ctl_method=cplctl)
     out = {'tidal_heating': res[0], 'dUdM': res[1], 'dUdw': res[2], 'dUdO': res[3], 'tidal_torque': p['host_mass'] * res[3], 'semi_major_axis': a, 'orbital_frequency': n,
            'love_number_by_orderl': res[4], 'negative_imk_by_orderl': res[5], 'effective_q_by_orderl': res[6]}
@@ -112,10 +112,21 @@ def run_single(c):
                 eccentricity=0.07, obliquity=0.2, orbital_frequency=2.0e-5, orbital_period=3.6, spin_frequency=2.7e-5, spin_period=2.7, fixed_k2=0.33, fixed_q=120., fixed_dt=40., tidal_scale=0.9)
     for k in c['given']:
         p[k] = T(k, base[k])
+    if c.get('cc_inputs'):
+        p['cc_inputs'] = (T('cc_alpha', 0.31), T('cc_zeta', 1.7))
     kw = dict(p)
+    if 'cc_inputs' in kw:
+        kw['complex_compliance_inputs'] = kw.pop('cc_inputs')
     kw.update(rheology=c['rheology'], max_tidal_order_l=c['max_tidal_order_l'], eccentricity_truncation_lvl=c['eccentricity_truncation_lvl'], use_obliquity=c.get('use_obliquity', True),
               calculate_orbit_spin_derivatives=True)
-    got = qt.quick_tidal_dissipation(**kw)
+    if c.get('via') == 'dict':
+        # the dictionary front end: host / secondary given as dictionaries with the documented keys
+        kw.pop('calculate_orbit_spin_derivatives')
+        host = {'mass': kw.pop('host_mass')}
+        sec = {'radius': kw.pop('target_radius'), 'mass': kw.pop('target_mass'), 'gravity_surface': kw.pop('target_gravity'), 'density_bulk': kw.pop('target_density'), 'moi': kw.pop('target_moi')}
+        got = qt.single_dissipation_from_dict_or_world_instance(host, sec, **kw)
+    else:
+        got = qt.quick_tidal_dissipation(**kw)
     for k in ('fixed_k2', 'fixed_q', 'tidal_scale'):
         p.setdefault(k, {'fixed_k2': 0.3, 'fixed_q': 100., 'tidal_scale': 1.}[k])
     ref = reference_single(p, c)
@@ -138,11 +149,23 @@ def run_dual(c):
         kw[k] = pair
         for i in range(2):
             P[i][names[k]] = pair[i]
+    if c.get('cc_inputs'):
+        cc = ((T('cc_alpha#0', 0.31), T('cc_zeta#0', 1.7)), (T('cc_alpha#1', 0.27), T('cc_zeta#1', 0.8)))
+        kw['complex_compliance_inputs'] = cc
+        P[0]['cc_inputs'], P[1]['cc_inputs'] = cc
     e = T('eccentricity', 0.07)
     n = T('orbital_frequency', 2.0e-5)
     kw.update(eccentricity=e, orbital_frequency=n, rheologies=c['rheology'], max_tidal_order_l=c['max_tidal_order_l'], eccentricity_truncation_lvl=c['eccentricity_truncation_lvl'],
               use_obliquity=c.get('use_obliquity', True))
-    got = qt.quick_dual_body_tidal_dissipation(**kw)
+    if c.get('via') == 'dict':
+        keys = {'radii': 'radius', 'masses': 'mass', 'gravities': 'gravity_surface', 'densities': 'density_bulk', 'mois': 'moi'}
+        hd, sd = {}, {}
+        for k_, nm_ in keys.items():
+            pair = kw.pop(k_)
+            hd[nm_], sd[nm_] = pair
+        got = qt.dual_dissipation_from_dict_or_world_instance(hd, sd, **kw)
+    else:
+        got = qt.quick_dual_body_tidal_dissipation(**kw)
     refs = []
     for i in range(2):
         p = dict(P[i])
